@@ -195,7 +195,7 @@ def gen_call(gs, w):
         bad = None
         r = rng.random()
         if r < 0.25:
-            kinds = ["positional", "missing", "extra"]
+            kinds = ["positional", "missing", "extra", "misnamed", "misnamed"]
             if any(a["kind"] == "ptr" for a in p["args"]):
                 kinds += ["wrong_dtype", "wrong_dtype", "wrong_xobj_dtype"]
             bad = rng.choice(kinds)
@@ -214,7 +214,7 @@ def gen_call(gs, w):
                 if "np" not in vals[j]:
                     vals[j] = {"np": {"hex": "00" * 64, "start": 0, "step": 1, "n": 4, "two_d": False}}
                 return {"op": "c_call", "probe": pi, "vals": vals, "bad": bad, "which": j, "other": rng.choice(others)}
-        return {"op": "c_call", "probe": pi, "vals": vals, "bad": bad}
+        return {"op": "c_call", "probe": pi, "vals": vals, "bad": bad, "which_name": rng.randrange(8)}
     return None
 
 
@@ -379,6 +379,12 @@ def run_call(step):
                 ker(**kw)
             elif bad == "extra":
                 ker(**kwargs, bogus=1)
+            elif bad == "misnamed":
+                # the right number of arguments, one of them under a name the kernel does not have
+                kw = dict(kwargs)
+                victim = sorted(k for k in kw if k != "out")[op.get("which_name", 0) % max(1, len(kw) - 1)]
+                kw[victim + "x"] = kw.pop(victim)
+                ker(**kw)
             else:
                 ker(**kwargs)
         except Exception as e:
